@@ -297,7 +297,20 @@ func backSliceOpt(v ssa.Value, through func(ssa.Value) bool, ctrl bool) map[ssa.
 				}
 			}
 		case *ssa.Alloc:
-			// a pointer to a local cell stands for the cell's contents
+			// a pointer to a local cell stands for the cell's contents; a freshly built struct for its fields
+			if refs := y.Referrers(); refs != nil {
+				for _, ref := range *refs {
+					if fa, ok := ref.(*ssa.FieldAddr); ok && fa.X == ssa.Value(y) {
+						if rr := fa.Referrers(); rr != nil {
+							for _, u := range *rr {
+								if st, ok := u.(*ssa.Store); ok && st.Addr == ssa.Value(fa) {
+									push(st.Val)
+								}
+							}
+						}
+					}
+				}
+			}
 			for _, st := range cellStores(y) {
 				push(st.Val)
 				if ctrl {
